@@ -80,7 +80,11 @@ type world struct {
 	vals  []valInfo
 	valID map[string]int
 
-	pools []uint64
+	pools       []uint64
+	poolPar     uint64           // a second uusdc/uatom pool, for parallel routes
+	positions   map[int][]uint64 // account index -> positions it created
+	voucher     string           // IBC voucher denom of uosmo received over channel-1 ("" = no IBC)
+	poolVoucher uint64
 
 	resH, evH hash.Hash
 	ops       []opInfo
@@ -300,7 +304,7 @@ func newWorld(seed int64, o worldOpts) *world {
 		}
 	}
 	w := &world{h: h, noDumps: o.NoDumps, r: emit.NewRand(seed), out: &childOut{Coverage: map[string]int{}, Hist: map[string]int{}},
-		valID: map[string]int{}, resH: sha256.New(), evH: sha256.New(), consH: sha256.New(), deputies: map[int]int{}, txSigners: map[string]uint64{}}
+		valID: map[string]int{}, resH: sha256.New(), evH: sha256.New(), consH: sha256.New(), deputies: map[int]int{}, positions: map[int][]uint64{}, txSigners: map[string]uint64{}}
 	w.lp = lpkeeper.NewMsgServerImpl(h.App.LiquiditypoolKeeper)
 	w.sw = swapkeeper.NewMsgServerImpl(h.App.SwapKeeper)
 	w.li = likeeper.NewMsgServerImpl(h.App.LiquidityincentiveKeeper)
@@ -344,6 +348,24 @@ func (w *world) setup() {
 			panic(fmt.Sprintf("setup: create position: %v", err))
 		}
 	}
+	// a second pool of the first pair (parallel routes) and the ICS-20 loop-back with a voucher pool
+	if err := w.exec("create-pool", "uusdc/uatom second", func(ctx sdk.Context) (gogoproto.Message, error) {
+		resp, e := w.lp.CreatePool(ctx, &lptypes.MsgCreatePool{Authority: a0, DenomBase: "uusdc", DenomQuote: "uatom", FeeRate: "0.003", PriceRatio: "1.0001", BaseOffset: "0.5"})
+		if e == nil {
+			w.poolPar = resp.Id
+		}
+		return resp, e
+	}); err != nil {
+		panic(fmt.Sprintf("setup: create pool: %v", err))
+	}
+	if err := w.exec("create-position", "second pool wide", func(ctx sdk.Context) (gogoproto.Message, error) {
+		return w.lp.CreatePosition(ctx, &lptypes.MsgCreatePosition{Sender: a0, PoolId: w.poolPar, LowerTick: -4000, UpperTick: 4000,
+			TokenBase: sdk.NewInt64Coin("uusdc", 1_000_000_000_000), TokenQuote: sdk.NewInt64Coin("uatom", 1_000_000_000_000),
+			MinAmountBase: sdkmath.ZeroInt(), MinAmountQuote: sdkmath.ZeroInt()})
+	}); err != nil {
+		panic(fmt.Sprintf("setup: create position: %v", err))
+	}
+	w.setupIBC()
 	// proof deputies with a key, so that validity-proof messages can also go through FinalizeBlock
 	for v := 0; v < 4 && v < len(w.vals); v++ {
 		a := 3 + v
@@ -422,8 +444,12 @@ func (w *world) opPosition() {
 	lo, hi := int64(-1-r.Intn(300)), int64(1+r.Intn(300))
 	ab, aq := int64(100_000+r.Intn(10_000_000)), int64(100_000+r.Intn(10_000_000))
 	w.exec("create-position", fmt.Sprintf("acct %d pool %d [%d,%d] %d/%d", a, pool, lo, hi, ab, aq), func(ctx sdk.Context) (gogoproto.Message, error) {
-		return w.lp.CreatePosition(ctx, &lptypes.MsgCreatePosition{Sender: w.h.Accts[a].Addr.String(), PoolId: pool, LowerTick: lo, UpperTick: hi,
+		resp, err := w.lp.CreatePosition(ctx, &lptypes.MsgCreatePosition{Sender: w.h.Accts[a].Addr.String(), PoolId: pool, LowerTick: lo, UpperTick: hi,
 			TokenBase: sdk.NewInt64Coin(db, ab), TokenQuote: sdk.NewInt64Coin(dq, aq), MinAmountBase: sdkmath.ZeroInt(), MinAmountQuote: sdkmath.ZeroInt()})
+		if err == nil {
+			w.positions[a] = append(w.positions[a], resp.Id)
+		}
+		return resp, err
 	})
 }
 
@@ -737,24 +763,26 @@ func runHistory(seed int64, n int, o worldOpts) (*childOut, error) {
 func (w *world) loop(n int) {
 	for i := 0; i < n && !w.stopped; i++ {
 		switch k := w.r.Intn(100); {
-		case k < 14:
+		case k < 12:
 			w.opSendTx()
-		case k < 20:
+		case k < 16:
 			w.opConvert()
-		case k < 28:
+		case k < 23:
 			w.opPosition()
-		case k < 40:
+		case k < 33:
 			w.opSwap()
-		case k < 56:
+		case k < 47:
 			w.opVoteGauge()
-		case k < 62:
+		case k < 52:
 			w.opDelegate(1+w.r.Intn(5), w.r.Intn(len(w.vals)), int64(1+w.r.Intn(5_000_000)))
-		case k < 74:
+		case k < 64:
 			w.opDa()
-		case k < 84:
+		case k < 73:
 			w.opGov()
-		case k < 91:
+		case k < 80:
 			w.opMultiDefect()
+		case k < 88:
+			w.opLateLimit()
 		default:
 			w.endBlock(time.Duration(1+w.r.Intn(10)) * time.Second)
 		}
